@@ -23,6 +23,15 @@ func init() {
 		n, err := writeAnchorsIndex(c.P, path)
 		fmt.Println("anchors index:", n, "functions written to", path, err)
 	})
+	// KEPT regenerates the must-pass inventory of E5 (checker/mustpass_index.json) from the tree being analysed
+	register("KEPT", func(c *Check) {
+		path := os.Getenv("VERIF_KEPT_OUT")
+		if path == "" {
+			path = "/verif/checker/mustpass_index.json"
+		}
+		nf, ni, err := writeKeptIndex(c, path)
+		fmt.Println("must-pass inventory:", nf, "functions,", ni, "effects written to", path, err)
+	})
 	register("DUMP", func(c *Check) {
 		var rel, recv, name string
 		fmt.Sscanf(os.Getenv("VERIF_DUMP"), "%s %s %s", &rel, &recv, &name)
